@@ -313,6 +313,10 @@ func (vc *FnVC) doUnOp(x *ssa.UnOp) {
 		r := vc.setReg(x, t)
 		if a.kind != aLocal {
 			vc.assume(vc.typeFacts(r))
+			if a.key != "" && vc.entry != nil && vc.entry != vc.st && vc.curIn(vc.entry, a.key) == vc.cur(a.key) {
+				// the store has not been written since entry: what it holds was allocated before entry
+				vc.assume(vc.typeFactsIn(vc.entry, r))
+			}
 			if a.fieldInv != "nullable" {
 				vc.assume(vc.regimeFacts(r.S, x.Type(), 0))
 			} else if r.K == SIface {
